@@ -1472,6 +1472,12 @@ static CACHED_ENV_VARS: Lazy<HashSet<&'static OsStr>> = Lazy::new(|| {
         "WATCHOS_DEPLOYMENT_TARGET",
         "SDKROOT",
         "CCC_OVERRIDE_OPTIONS",
+        // The locale decides the language, the quotation marks and the encoding
+        // of the diagnostics that are stored with a result.
+        "LANG",
+        "LC_ALL",
+        "LC_CTYPE",
+        "LC_MESSAGES",
     ]
     .iter()
     .map(OsStr::new)
